@@ -380,6 +380,11 @@ M("C03", "cube-reader-pops-from-the-end", F + "cube.py", r"tmp\[counter\] = floa
 M("C03", "vasp-grid-loops-interchanged", F + "chgcar.py", r"    for i2 in range\(shape\[2\]\):\n        for i1 in range\(shape\[1\]\):\n            for i0 in range\(shape\[0\]\):", "    for i0 in range(shape[0]):\n        for i1 in range(shape[1]):\n            for i2 in range(shape[2]):", "C03-R20")
 M("C03", "cube-writer-breaks-line-after-seven", F + "cube.py", r"        if counter % 6 == 5:", "        if counter % 7 == 6:", "C03-R20")
 
+M("C05", "psi4-f-factor-sqrt5", F + "molden.py", r"np\.array\(\[1, 1, 1\]\)\) / np\.sqrt\(15\.0\)", "np.array([1, 1, 1])) / np.sqrt(5.0)", "C05-R10")
+M("C05", "turbomole-correction-applied-to-pure-shells", F + "molden.py", r'            if angmom == 2 and kind == "c":\n                correction = 1\.0 / np\.sqrt\(3\.0\)', '            if angmom == 2 and kind == "p":\n                correction = 1.0 / np.sqrt(3.0)', "C05-R10")
+M("C05", "orca-correction-multiplied", F + "molden.py", r"(def _fix_obasis_orca(?:.|\n)*?)fixed_shell\.coeffs\[iprim, 0\] /= correction", "\\1fixed_shell.coeffs[iprim, 0] *= correction", "C05-R10")
+M("C05", "orca-basis-keeps-input-conventions", F + "molden.py", r"return MolecularBasis\(fixed_shells, orca_conventions, obasis\.primitive_normalization\)", "return MolecularBasis(fixed_shells, obasis.conventions, obasis.primitive_normalization)", "C05-R10")
+
 # ----------------------------------------------------------------------------- additions (fourth round, batch 6)
 M("C07", "extxyz-title-parsed-after-putback", F + "extxyz.py", r"    atom_columns, title_data = _parse_title\(title_line, lit\)\n    lit\.back\(title_line\)\n    lit\.back\(atom_line\)\n", "    lit.back(title_line)\n    lit.back(atom_line)\n    atom_columns, title_data = _parse_title(title_line, lit)\n", "C07-R8")
 M("C07", "mol2-atom-loop-skips-blank-lines", F + "mol2.py", r"(    for i in range\(natoms\):\n        words = next\(lit\)\.split\(\)\n)", "\\1        if not words:\n            continue\n", "C07-R9")
